@@ -135,6 +135,7 @@ type c08ConnResult struct {
 	elapsed    time.Duration
 	realTimout bool
 	ops        []string
+	gapRan     bool // c02ConnectReplyGap: the rendezvous inside the station's first Write was reached
 }
 
 // c08Connect presents flight+app to the real handler, first[:cut] before between() and the rest after it.
